@@ -87,6 +87,19 @@ func c12Exact(c *fw.Ctx, j *proto.Job, res *proto.Result) {
 				c.Violate("exact:"+t.Type+"-outside-gap", fmt.Sprintf("%s lexeme [%d:%d] leaves the gap [%d:%d] between its neighbours", t.Type, lx.Begin, lx.End, lo, hi), rp)
 				return
 			}
+			if t.Type == "text" && lx.End >= lx.Begin && lx.Begin > 0 && lx.Begin < len(content) {
+				// the text of a Description begins on the line after the keyword: not on the keyword's line, and not between the two
+				// bytes of that line's CRLF
+				between := string(content[lo:lx.Begin])
+				if content[lx.Begin-1] == '\r' && content[lx.Begin] == '\n' {
+					c.Violate("exact:text-begins-inside-a-line-end", fmt.Sprintf("text lexeme begins at %d, between the CR and the LF that end the keyword's line", lx.Begin), rp)
+					return
+				}
+				if !strings.ContainsAny(between, "\r\n") {
+					c.Violate("exact:text-begins-on-the-keyword-line", fmt.Sprintf("text lexeme begins at %d, on the line of its keyword (%q lies between)", lx.Begin, trunc(between, 40)), rp)
+					return
+				}
+			}
 			got := ""
 			if lx.End >= lx.Begin {
 				got = string(content[lx.Begin : lx.End+1])
